@@ -522,10 +522,45 @@ class Translator:
         return self.inline(c, st, fr, k, ind)
 
     # ---- statements ----------------------------------------------------------------------------------------------
+    @staticmethod
+    def _is_printer_def(fn) -> bool:
+        """a function that does nothing but print: statements are print calls (`print(...)` / `builtins.print(...)`),
+        `try: <print calls> except …: pass`, and `if <cond>: return` guards (`if self.silent: return`)"""
+        body = [x for x in fn.body if not (isinstance(x, ast.Expr) and isinstance(x.value, ast.Constant))]
+
+        def printcall(x):
+            if not (isinstance(x, ast.Expr) and isinstance(x.value, ast.Call)):
+                return False
+            g = x.value.func
+            return (isinstance(g, ast.Name) and g.id == "print") or \
+                (isinstance(g, ast.Attribute) and g.attr == "print" and isinstance(g.value, ast.Name) and g.value.id == "builtins")
+        for x in body:
+            if printcall(x) or isinstance(x, ast.Pass):
+                continue
+            if isinstance(x, ast.Try) and x.body and all(printcall(y) for y in x.body) and not x.orelse and not x.finalbody \
+                    and all(all(isinstance(y, ast.Pass) for y in h.body) for h in x.handlers):
+                continue
+            if isinstance(x, ast.If) and not x.orelse and all(isinstance(y, ast.Return) and y.value is None for y in x.body) \
+                    and not any(isinstance(n, (ast.Call, ast.NamedExpr, ast.Await)) for n in ast.walk(x.test)):
+                continue
+            return False
+        return bool(body)
+
+    def _printer_name(self, f) -> bool:
+        """does the callee resolve to a function of this module / a method of ATP_Store that only prints?"""
+        src = self.src
+        if isinstance(f, ast.Name):
+            d = next((n for n in src.tree.body if isinstance(n, ast.FunctionDef) and n.name == f.id), None)
+            return d is not None and self._is_printer_def(d)
+        if isinstance(f, ast.Attribute) and isinstance(f.value, ast.Name) and f.value.id == "self":
+            d = src.methods("ATP_Store").get(f.attr)
+            return d is not None and self._is_printer_def(d)
+        return False
+
     def is_noop_call(self, c, st, fr):
-        """print(...), logging.<x>(...), <logger>.<x>(...) with arguments that have no effects"""
+        """print(...), a helper that only prints, logging.<x>(...), <logger>.<x>(...) with arguments that have no effects"""
         f = c.func
-        ok = isinstance(f, ast.Name) and f.id == "print"
+        ok = (isinstance(f, ast.Name) and f.id == "print") or self._printer_name(f)
         if isinstance(f, ast.Attribute):
             try:
                 v = self.expr(f.value, st, fr)
